@@ -463,6 +463,15 @@ def validate_records(module, cfg, records, nchunks=16, timeout=1800, idvar="i", 
                 out["accepted"] += idx - 1
                 chunk = chunk[idx:]
                 continue
+            st = tlc_printed_values(r.out, "STUCK")
+            if st and isinstance(st[-1], list) and len(st[-1]) == 2 and 1 <= st[-1][0] <= len(chunk):
+                idx, lpos = st[-1]
+                evs = chunk[idx - 1].get("events", [])
+                evname = evs[lpos - 1]["ev"] if 1 <= lpos <= len(evs) else "<end>"
+                out["rejected"].append((chunk[idx - 1]["id"], "stuck@%d:%s" % (lpos, evname)))
+                out["accepted"] += idx - 1
+                chunk = chunk[idx:]
+                continue
             raise MachineryError("trace validation run failed (%s):\n%s" % (r.violated, r.out[-3000:]))
         return out
 
@@ -477,3 +486,151 @@ def validate_records(module, cfg, records, nchunks=16, timeout=1800, idvar="i", 
     finally:
         shutil.rmtree(d, ignore_errors=True)
     return res
+
+
+# ----------------------------------------------------------------------------------------------
+# Parser for TLA+ values as printed by TLC (PrintT / error traces / simulation files)
+# ----------------------------------------------------------------------------------------------
+class _P:
+    def __init__(self, s):
+        self.s = s
+        self.i = 0
+
+    def ws(self):
+        while self.i < len(self.s) and self.s[self.i] in " \t\r\n":
+            self.i += 1
+
+    def peek(self, k=1):
+        return self.s[self.i:self.i + k]
+
+    def eat(self, tok):
+        self.ws()
+        if self.s.startswith(tok, self.i):
+            self.i += len(tok)
+            return True
+        return False
+
+    def expect(self, tok):
+        if not self.eat(tok):
+            raise ValueError("expected %r at %d: %r" % (tok, self.i, self.s[self.i:self.i + 40]))
+
+    def value(self):
+        self.ws()
+        if self.eat("<<"):
+            out = []
+            if self.eat(">>"):
+                return out
+            while True:
+                out.append(self.value())
+                if self.eat(">>"):
+                    return out
+                self.expect(",")
+        if self.eat("{"):
+            out = []
+            if self.eat("}"):
+                return set()
+            while True:
+                out.append(self.value())
+                if self.eat("}"):
+                    break
+                self.expect(",")
+            try:
+                return set(_freeze(x) for x in out)
+            except TypeError:
+                return out
+        if self.eat("["):
+            d = {}
+            while True:
+                self.ws()
+                m = re.match(r"[A-Za-z_][A-Za-z0-9_]*", self.s[self.i:])
+                key = m.group(0)
+                self.i += len(key)
+                self.expect("|->")
+                d[key] = self.value()
+                if self.eat("]"):
+                    return d
+                self.expect(",")
+        if self.eat("("):  # function literal (a :> b @@ c :> d)
+            d = {}
+            while True:
+                k = self.value()
+                self.expect(":>")
+                d[_freeze(k)] = self.value()
+                if self.eat(")"):
+                    return d
+                self.expect("@@")
+        if self.peek() == '"':
+            j = self.i + 1
+            buf = []
+            while self.s[j] != '"':
+                if self.s[j] == "\\":
+                    j += 1
+                buf.append(self.s[j])
+                j += 1
+            self.i = j + 1
+            return "".join(buf)
+        m = re.match(r"-?\d+", self.s[self.i:])
+        if m:
+            self.i += len(m.group(0))
+            return int(m.group(0))
+        m = re.match(r"[A-Za-z_][A-Za-z0-9_]*", self.s[self.i:])
+        if m:
+            self.i += len(m.group(0))
+            w = m.group(0)
+            return {"TRUE": True, "FALSE": False}.get(w, w)
+        raise ValueError("cannot parse at %d: %r" % (self.i, self.s[self.i:self.i + 40]))
+
+
+def _freeze(x):
+    if isinstance(x, list):
+        return tuple(_freeze(y) for y in x)
+    if isinstance(x, dict):
+        return tuple(sorted((k, _freeze(v)) for k, v in x.items()))
+    if isinstance(x, set):
+        return frozenset(_freeze(y) for y in x)
+    return x
+
+
+def parse_tla(s):
+    p = _P(s)
+    v = p.value()
+    p.ws()
+    if p.i != len(p.s):
+        raise ValueError("trailing text: %r" % p.s[p.i:p.i + 40])
+    return v
+
+
+def tlc_printed_values(out, marker):
+    """All values printed with PrintT(<<marker, v>>) (handles multi-line output by bracket matching)."""
+    vals = []
+    key = re.compile(r'<<\s*"%s"\s*,' % re.escape(marker))
+    i = 0
+    while True:
+        mm = key.search(out, i)
+        if not mm:
+            break
+        j = mm.start()
+        depth = 0
+        k = j
+        while k < len(out):
+            if out.startswith("<<", k):
+                depth += 1
+                k += 2
+                continue
+            if out.startswith(">>", k):
+                depth -= 1
+                k += 2
+                if depth == 0:
+                    break
+                continue
+            if out[k] == '"':
+                k += 1
+                while out[k] != '"':
+                    k += 2 if out[k] == "\\" else 1
+            k += 1
+        try:
+            vals.append(parse_tla(out[j:k])[1])
+        except Exception:
+            pass
+        i = k
+    return vals
